@@ -513,6 +513,23 @@ def check_case(case):
                 if got != [want, want, want, True]:
                     fails.append({"step": "[P==Q, Q==P, not P!=Q, P==P]", "observed": [repr(g) for g in got],
                                   "expected": [repr(w) for w in (want, want, want, True)]})
+            elif kind == "foreign":
+                # the second operand lies on a DIFFERENT curve (same p, other a and b) on which its coordinates are a point too and
+                # whose parameters have the same Python hash() as the first curve's: never equal, never added
+                c3 = K.hash_colliding_curve(c, vals[1])
+                o1, o2 = specs[0].make(c), specs[1].make(c3)
+                got = [o1 == o2, o2 == o1, not (o1 != o2), c == c3, c3 == c, c != c3]
+                if got != [False, False, False, False, False, True]:
+                    fails.append({"step": "operands on curves (p, a, b) and (p, a + k(2^61-1), b') with equal hash(): [P==Q, Q==P, not P!=Q, c==c', c'==c, c!=c']",
+                                  "observed": [repr(g) for g in got], "expected": ["False"] * 5 + ["True"],
+                                  "second_curve": [c3.p(), c3.a(), c3.b()]})
+                if isinstance(o1, E.PointJacobi):
+                    try:
+                        r = specs[0].make(c) + specs[1].make(c3)
+                        fails.append({"step": "P + Q with Q on a different curve must raise ValueError", "observed": repr(K.value(r)) if r is not None else "None",
+                                      "expected": "ValueError", "second_curve": [c3.p(), c3.a(), c3.b()]})
+                    except ValueError:
+                        pass
             elif kind == "eq3":
                 o = [mk(0), mk(1), mk(2)]
                 got = [o[0] == o[1], o[1] == o[2], o[0] == o[2], o[2] == o[0], o[1] == o[0], o[2] == o[1]]
@@ -806,6 +823,14 @@ def search_toy_curve(ctx, S, p, a, b):
                 case = mkcase(cur, chk, args)
                 case["twin"] = mode
                 S.case(case, pre + "twin.%s.%s" % (chk, mode))
+    # operands on a DIFFERENT curve whose parameters collide under hash() with this curve's
+    if p > 3:
+        fin = [T for T in pts if T[1] % p]     # y = 0 is read as the identity (K1) and the identity passes through `+` unchecked
+        for P in rng.sample(fin, min(len(fin), 4)):
+            for Q in [P] + rng.sample(fin, min(len(fin), 2)):
+                s1, s2 = tk(J(*K.rescale(P, rng.choice(zs), p))), tk(J(*K.rescale(Q, rng.choice(zs), p)))
+                for args in ([s1, s2], [s1, tk(A(*Q))], [tk(A(*P)), s2], [tk(A(*P)), tk(A(*Q))]):
+                    S.case(mkcase(cur, "foreign", args), pre + "foreign.hash-collision")
     # operands that are instances of trivial user subclasses of PointJacobi / Point (==, !=, +, chains), aliasing of
     # operands under augmented assignment / summation loops, hashability
     for P in pts:
